@@ -203,7 +203,7 @@ def unit(cfg):
         u.note("names treated as shared between processes (same in two independent runs): %s"
                % sorted(os.path.basename(x) for x in shared))
 
-    budget = 120.0 if cfg["tier"] == "quick" else 180.0
+    budget = 120.0 if cfg["tier"] == "quick" else 300.0
     t_start = time.time()
     failing = [0]
 
@@ -879,7 +879,7 @@ def configs(chk):
         add(3, None, False, splits=[(a, b) for a in range(3) for b in range(3)])
         add(3, None, True, splits=[(a, b) for a in range(3) for b in range(3)], ranges=cr)
         add(4, 3, False, splits=[(a, b) for a in range(4) for b in range(4)], kinds=("independent",))
-        add(4, 2, True, splits=[(a,) for a in range(4)], ranges=cr, kinds=("independent",))
+        add(4, 2, True, splits=[(a, b) for a in range(4) for b in range(4)], ranges=cr, kinds=("independent",))
     return out
 
 
@@ -899,12 +899,16 @@ def run(chk):
     chk.bounds = {
         "processes": "2 (all interleavings) and 3 (preemption bound 2)" if chk.quick else
                      "2 and 3 (all interleavings, with and without a kill), 4 (preemption bound 3 without kill, 2 with kill)",
-        "kill points": "every yield point (filesystem operation, compiler half) of process 0, at most one kill per run",
+        "kill points": "every yield point (filesystem operation, compiler half) of process 0, at most one kill per run; "
+                       "kill target (symbolic): the process together with its compiler, or - at the compiler's "
+                       "yield points - the compiler child alone (subprocess then reports return code -9)",
+        "process kinds": "separately started interpreters (each with its own copy of kerneldll's module-level "
+                         "state) and workers forked after sasmodels.kerneldll was imported (shared module-level state)",
         "model": "%s, float64 and float32" % MODEL,
         "compiler": "output written in two halves, one yield between",
     }
     chk.outside = [
-        "more than one kill per run; kills of the compiler alone (the process group dies together)",
+        "more than one kill per run; signals other than an immediate kill",
         "compilers that write the output in more than two steps or through their own temporary name",
         "non-POSIX rename semantics (Windows replace of a loaded DLL), network filesystems",
         "power loss (no fsync modelling): a completed write is durable",
@@ -922,7 +926,11 @@ def run(chk):
         "kerneldll.SAS_DLL_PATH -> virtual cache directory",
     ]
     chk.assumptions = [
-        "a killed process performs no further filesystem operation and its compiler dies with it",
+        "a killed process performs no further filesystem operation and its compiler dies with it; a killed "
+        "compiler leaves what it has written and its parent sees a negative return code; the process whose "
+        "compiler was killed may raise, but must not return a kernel on anything but a complete library",
+        "names that are equal in two runs of the same process kind are shared between processes "
+        "(module-level values are equal in forked workers, re-created in separately started ones)",
         "partial-order reduction: operations on files whose name only the calling process knows "
         "(mkstemp) and reads of paths nobody writes commute with all operations of other processes",
         "processes are identical, so the killed one is process 0 without loss of generality",
